@@ -56,9 +56,9 @@ class P(Prop):
                 "algo/summarising.py summarize (argument checks, bounding box, one addAFMap per (feature, operator) in call order via AFMap.getMeasureName, add, compute); "
                 "core/track.py hasAnalyticalFeature / getObsAnalyticalFeature for uid, x, y, idx and the track's own features; "
                 "core/utils.py co_count co_sum co_min co_max co_avg co_median; the collection's bounding box is modelled as min/max of the coordinates")
-    trusted = ["math.floor / math.ceil / float.is_integer are taken as exact floor, ceiling and integrality of the float",
+    trusted = ["math.floor / math.ceil / float.is_integer are taken as exact floor, ceiling and integrality of the float;",
                "the iteration order of the Python set of features in addCollectionToRaster is recomputed by the harness (same insertions, same process) and passed to the model; "
-               "it only matters for the values left behind when the scatter raises",
+               "it only matters for the values left behind when the scatter raises;",
                "a band name crosses the protocol as its '#'-separated parts"]
     rule = ("exhaustive: grids over [0,W]x[0,H] (W,H in 1..3) for every listed resolution, getCell of every half-integer lattice point in [-0.5,W+0.5]x[-0.5,H+0.5]; "
             "one-track collections (0,0),(2,2),p for every lattice p in [0,2]^2, every listed resolution; "
